@@ -20,8 +20,11 @@ Definition is_proved_obs (x : op) : bool :=
   end.
 
 Section Refine4.
+(** capacity of the object and of the other object *)
 Variable L : N.
 Hypothesis HL : CapOk L.
+Variable Lo : N.
+Hypothesis HLo : CapOk Lo.
 
 Ltac dom H :=
   cbn [std_step] in H; cbv zeta in H; unfold guard in H;
@@ -44,13 +47,14 @@ Proof.
 Qed.
 
 Theorem obs_refines s o x :
-  Inv L s -> Inv L o -> Bounded x -> CstrsOk x -> is_proved_obs x = true ->
+  Inv L s -> Inv Lo o -> Bounded x -> CstrsOk x -> is_proved_obs x = true ->
   forall cs' cos' rs, std_step (abs s) (abs o) x = Some (cs', cos', rs) ->
   step L s o x = Ok (s, o, rs) /\ cs' = abs s /\ cos' = abs o.
 Proof.
   intros Hs Ho HB HC Hm cs' cos' rs Hstd.
   pose proof Hs as (Hb & Hl & Hz). pose proof Ho as (Hbo & Hlo & Hzo). pose proof HL as [HL1 HL2].
-  pose proof (abs_len L s Hs) as Las. pose proof (abs_len L o Ho) as Lao.
+  pose proof HLo as [HLo1 HLo2].
+  pose proof (abs_len L s Hs) as Las. pose proof (abs_len Lo o Ho) as Lao.
   destruct x; try discriminate Hm; clear Hm; unb HB;
     unfold CstrsOk in HC; cbn [op_cstrs] in HC;
     try (match type of HC with Forall _ [_] => apply Forall_cons_iff in HC; destruct HC as [HC _] end);
@@ -97,8 +101,8 @@ Proof.
   - (* len *) reflexivity.
   - (* empty *) reflexivity.
   - (* str *) rewrite (str_refines L s Hs). reflexivity.
-  - (* eq *) rewrite (eq_op_refines L s o Hs Ho). reflexivity.
-  - (* ne *) rewrite (ne_op_refines L s o Hs Ho). reflexivity.
+  - (* eq *) rewrite (eq_op_refines L Lo s o Hs Ho). reflexivity.
+  - (* ne *) rewrite (ne_op_refines L Lo s o Hs Ho). reflexivity.
   - (* forward traversal *) rewrite (iter_forward L HL s Hs). reflexivity.
   - (* backward traversal *) rewrite (iter_reverse L HL s Hs). reflexivity.
 Qed.
